@@ -96,9 +96,16 @@ def gen_saturation(seed: int, n: int) -> List[Scn]:
         A = rng.randint(1, 4)
         P = rng.randint(0, 4)
         M = A + P + rng.randint(2, 5)
+        stall = rng.random() < 0.35
         cfg = {"A": A, "P": P, "ackable": rng.random() < 0.8,
-               "msgs": _msgs(rng, M, ["valid"] * 10 + ["malformed", "unknown", "empty", "minus1"], ["ta0"], instant_p=0.05,
-                             savefail_p=0.1)}
+               "msgs": _msgs(rng, M, ["valid"] * 10 + ["malformed", "unknown", "empty", "minus1"], ["ta0"],
+                             instant_p=0.8 if stall else 0.05, savefail_p=0.1)}
+        if stall:
+            if rng.random() < 0.5:
+                cfg["backend_suspend"] = True
+            else:
+                cfg["mws"] = [{rng.choice(["post", "postsave", "onerr"]): "gate"}]
+            cfg["ack_async"] = rng.random() < 0.5
         steps: List[Any] = []
         if rng.random() < 0.5:
             steps.append(["adv_rel", rng.choice([3, 9, 31])])    # idle polling first
@@ -156,7 +163,8 @@ def gen_pipe(seed: int, n: int) -> List[Scn]:
         nm = rng.randint(0, 3)
         mws = []
         for _ in range(nm):
-            mws.append({"pre": rng.choice(modes), "onerr": rng.choice(modes), "post": rng.choice(modes),
+            mws.append({"pre": rng.choice(modes), "onerr": rng.choice(modes + ["raise"] if rng.random() < 0.3 else modes),
+                        "post": rng.choice(modes + ["raise"] if rng.random() < 0.3 else modes),
                         "postsave": rng.choice(modes + ["raise"]), "replace": rng.random() < 0.4})
         M = rng.randint(1, 3)
         cfg = {"A": rng.choice([0, 1, 2, 3]), "P": rng.choice([0, 1, 2]),
@@ -310,7 +318,14 @@ def gen_stop_sweep(seed: int, n: int) -> List[Scn]:
         N = rng.choice([0, 0, 1, 2, 3])
         W = rng.choice([-1, 2, 5])
         M = rng.randint(2, 6)
-        cfg = {"A": A, "P": P, "N": N, "W": W, "msgs": [{"task": "ta0"}] * M}
+        cfg = {"A": A, "P": P, "N": N, "W": W, "msgs": [{"task": "ta0"} for _ in range(M)]}
+        if rng.random() < 0.3:
+            for mc in cfg["msgs"]:
+                if rng.random() < 0.4:
+                    mc["ackfail"] = True
+            cfg["ack"] = rng.choice(["default", "when_executed", "when_received"])
+        elif rng.random() < 0.2:
+            cfg["mws"] = [{rng.choice(["post", "onerr", "pre"]): "raise"}]
         base = _flow_steps(rng, cfg, rng.randint(3, 8), ["ret", "exc"], midflight=False, stop_p=0.0)
         endless = rng.random() < 0.4
         for pos in range(len(base) + 1):
